@@ -2647,6 +2647,24 @@ def implicit_defaultdict(source: str) -> str:
 
     transaction = 0
     root = core.parse(source)
+
+    # collections.defaultdict(set) and collections.defaultdict(list) are written by name: not
+    # when the file gives one of the names another meaning
+    import_collections = {
+        alias
+        for node in core.walk(root, ast.Import)
+        for alias in node.names
+        if alias.asname is None and alias.name.split(".")[0] == "collections"
+    }
+    for node, name in _iter_identifier_mentions(root):
+        if name not in {"collections", "set", "list"} or node in import_collections:
+            continue
+        if isinstance(node, (ast.Attribute, ast.keyword)):
+            continue
+        if isinstance(node, ast.Name) and isinstance(node.ctx, ast.Load):
+            continue
+        return
+
     for (_, target, value), (n2,) in core.walk_sequence(root, assign_template, ast.For):
         loop_replacements = {}
         loop_removals = set()
